@@ -277,6 +277,65 @@ def check_decidable_guards(model, rep):
         raise AnalysisError(f'only {n} iszero/isunit guards found in evaluable.py')
 
 
+def check_certain_equality(model, rep):
+    """R01.7: lengths in evaluable shapes may be known only at run time; `_certainly_equal` / `_all_certainly_equal` hold when two
+    lengths are provably the same, `not _certainly_different` / `not _any_certainly_different` already when they merely cannot be told
+    apart.  The latter is what assertions and validations use (the run-time check follows).  A rewrite rule that returns a rewritten
+    expression under such a test drops or merges operations on the strength of a possibility: for run-time lengths that differ the
+    simplified expression has another shape or value than the original."""
+    ev = model.module('evaluable')
+    A = model.cls('evaluable:Array')
+    protocol = {n for n in A.members if n.startswith('_') and not n.startswith('__')} | set(EXTRA_PROTOCOLS)
+    n = 0
+    for f in model.functions.values():
+        if f.module is not ev or isinstance(f.node, ast.Lambda) or f.cls is None or f.name not in protocol or f.name in ('_compile', '_compile_with_out', '_node', '_intbounds_impl'):
+            continue
+        for g in ast.walk(f.node):
+            if not isinstance(g, ast.If) or not any(isinstance(b, ast.Return) and b.value is not None for b in g.body):
+                continue
+            n += 1
+            weak = [c for c in ast.walk(g.test) if isinstance(c, ast.UnaryOp) and isinstance(c.op, ast.Not) and isinstance(c.operand, ast.Call) and src(c.operand.func) in ('_certainly_different', '_any_certainly_different')]
+            ok = not weak
+            if weak or n <= 1:
+                pass
+            rep.ob('R01.7', f.key, f.where(g), ok, 'rewrites of this rule are guarded by certain (not merely possible) equality of lengths' if ok else
+                   f'`{src(weak[0])[:70]}` lets the rewrite `{stmt_text(next(b for b in g.body if isinstance(b, ast.Return)))[:50]}` fire whenever the lengths cannot be told apart: for run-time lengths that differ, '
+                   'the simplified expression no longer has the shape (or value) of the original', statement=f'certain-equality@{f.name}')
+    if n < 150:
+        raise AnalysisError(f'only {n} guarded rewrites found in the protocol methods of evaluable.py')
+
+
+def check_hoist_quantifier(model, rep):
+    """R01.5 (hoisting): moving parts of a loop body out of the loop (or keeping them outside) is licensed by independence of the
+    loop index of EVERY moved part.  The tests are comprehensions over `self.index in <part>.arguments`; as the guard of a returned
+    rewrite they must be universal - `not any(index in ...)` / `all(index not in ...)`; the existential readings `not all(index in ...)`
+    / `any(index not in ...)` license the move as soon as one part is independent and leave the loop index of the others unbound."""
+    ev = model.module('evaluable')
+    n = 0
+    for f in model.functions.values():
+        if f.module is not ev or isinstance(f.node, ast.Lambda) or f.cls is None:
+            continue
+        for g in ast.walk(f.node):
+            if not isinstance(g, ast.If) or not any(isinstance(b, ast.Return) and b.value is not None for b in g.body):
+                continue
+            for q in ast.walk(g.test):
+                if not (isinstance(q, ast.Call) and src(q.func) in ('any', 'all') and len(q.args) == 1 and isinstance(q.args[0], ast.GeneratorExp)):
+                    continue
+                elt = q.args[0].elt
+                if not (isinstance(elt, ast.Compare) and len(elt.ops) == 1 and isinstance(elt.ops[0], (ast.In, ast.NotIn)) and src(elt.left) in ('self.index', 'index') and src(elt.comparators[0]).endswith('.arguments')):
+                    continue
+                n += 1
+                negated = any(isinstance(u, ast.UnaryOp) and isinstance(u.op, ast.Not) and u.operand is q for u in ast.walk(g.test))
+                dependent = isinstance(elt.ops[0], ast.In)       # element test says "depends on the index"
+                # independence of all parts: not any(dependent) | all(independent);  dependence of all parts (keep inside): all(dependent) | not any(independent)
+                universal = (src(q.func) == 'any' and negated) or (src(q.func) == 'all' and not negated)
+                rep.ob('R01.5', f.key, f.where(g), universal, f'`{src(g.test)[:70]}` quantifies over every part' if universal else
+                       f'`{src(g.test)[:70]}` holds as soon as ONE part is {"independent of" if dependent else "dependent on"} the loop index, but the rewrite `{stmt_text(next(b for b in g.body if isinstance(b, ast.Return)))[:60]}` '
+                       'moves all of them: the parts that do depend on the index end up outside their loop with the index unbound', statement=f'hoist-quantifier@{f.name}')
+    if n < 1:
+        raise AnalysisError('no quantified loop-index independence test guards a rewrite any more (LoopSum._simplified expected)')
+
+
 def run(model, rep, tier):
     rep.explanation = (
         'R01.1: the rewrite system is a double-dispatch protocol; the arities declared by the `_x = lambda self, ...: None` defaults in evaluable.Array (and by _simplified, _derivative, _compile_with_out, ...) are '
@@ -288,6 +347,8 @@ def run(model, rep, tier):
     rep.rule('R01.2', 'swap rules do not hand their own axis parameters to user-facing helpers')
     rep.rule('R01.4', 'fixed-point driver: assertion, None convention, loop detection, memoisation')
     rep.rule('R01.5', 'binary swap rules: control operands equated, no loop-index capture')
+    rep.rule('R01.8', 'the integer ranges that license integer rewrites are sound for the elementary and index-producing nodes (= R06.4)')
+    rep.rule('R01.7', 'rewrite rules fire on certain, not merely possible, equality of run-time lengths')
     rep.rule('R01.6', 'iszero/isunit guards of rewrite rules test operands that simplification can decide (no dead guards)')
     check_arity(model, rep)
     check_passthrough(model, rep)
@@ -295,6 +356,11 @@ def run(model, rep, tier):
     check_binary_guards(model, rep)
     advisory_priority(model, rep)
     check_decidable_guards(model, rep)
+    check_certain_equality(model, rep)
+    check_hoist_quantifier(model, rep)
+    from rules.c06 import check_transfer
+    from rules.c03 import _Rename
+    check_transfer(model, _Rename(rep, {'R06.4': 'R01.8'}))
     rep.require('R01.1', 250)
     rep.require('R01.2', 40)
     rep.require('R01.4', 6)
